@@ -15,12 +15,14 @@
 package main
 
 import (
+	"bytes"
 	"encoding/json"
 	"fmt"
 	"os"
 	"os/exec"
 	"path/filepath"
 	"sort"
+	"strconv"
 	"strings"
 
 	cocagit "github.com/modernizing/coca/pkg/application/git"
@@ -51,6 +53,8 @@ type Case struct {
 	Case    string   `json:"case"`
 	Mode    string   `json:"mode"`
 	History []Commit `json:"history"`
+	// Tables (real mode): `coca git -t`, `coca git -a`, `coca git -o` are run as well and their printed tables recorded
+	Tables bool `json:"tables"`
 }
 
 type ChangeFact struct {
@@ -112,7 +116,18 @@ type Obs struct {
 	Basic     BasicObs    `json:"basic"`
 	Age       []AgeObs    `json:"age"`
 	Changelog []LogObs    `json:"changelog"`
+	Cli       CliTables   `json:"cli"`
 	Note      string      `json:"note,omitempty"`
+}
+
+// CliTables: the rows of the tables the command prints (one invocation per table: a shared table object makes a
+// combined invocation repeat the earlier tables' rows)
+type CliTables struct {
+	Ran  bool      `json:"ran"`
+	Ok   bool      `json:"ok"` // all three invocations succeeded and their output had the shape of a table
+	Team []TeamObs `json:"team"`
+	Age  []string  `json:"age"`
+	Top  []TopObs  `json:"top"`
 }
 
 type Record struct {
@@ -124,7 +139,8 @@ type Record struct {
 }
 
 func emptyObs() Obs {
-	return Obs{Commits: []CommitObs{}, Team: []TeamObs{}, Top: []TopObs{}, Age: []AgeObs{}, Changelog: []LogObs{}}
+	return Obs{Commits: []CommitObs{}, Team: []TeamObs{}, Top: []TopObs{}, Age: []AgeObs{}, Changelog: []LogObs{},
+		Cli: CliTables{Team: []TeamObs{}, Age: []string{}, Top: []TopObs{}}}
 }
 
 // ---------------------------------------------------------------- real git
@@ -197,7 +213,7 @@ func (r *repo) commit(c Commit) {
 	r.git(nil, "add", "-A")
 	r.tick++
 	ts := fmt.Sprintf("%sT%02d:%02d:00+0000", c.Date, 8+r.tick/60, r.tick%60)
-	env := []string{"GIT_AUTHOR_NAME=" + c.Author, "GIT_AUTHOR_EMAIL=a@example.org", "GIT_COMMITTER_NAME=" + c.Author,
+	env := []string{"GIT_AUTHOR_NAME=" + c.Author, "GIT_AUTHOR_EMAIL=a@example.org", "GIT_COMMITTER_NAME=Release Bot 9",
 		"GIT_COMMITTER_EMAIL=a@example.org", "GIT_AUTHOR_DATE=" + ts, "GIT_COMMITTER_DATE=" + ts}
 	r.git(env, "commit", "-q", "--allow-empty", "-m", c.Subject)
 }
@@ -216,7 +232,7 @@ func buildReal(c Case, scratch string) (string, []CommitFact) {
 			r.git(nil, "checkout", "-q", "main")
 			r.tick++
 			ts := fmt.Sprintf("%sT%02d:%02d:00+0000", h.Date, 8+r.tick/60, r.tick%60)
-			env := []string{"GIT_AUTHOR_NAME=" + h.Author, "GIT_AUTHOR_EMAIL=a@example.org", "GIT_COMMITTER_NAME=" + h.Author,
+			env := []string{"GIT_AUTHOR_NAME=" + h.Author, "GIT_AUTHOR_EMAIL=a@example.org", "GIT_COMMITTER_NAME=Release Bot 9",
 				"GIT_COMMITTER_EMAIL=a@example.org", "GIT_AUTHOR_DATE=" + ts, "GIT_COMMITTER_DATE=" + ts}
 			r.git(env, "merge", "-q", "--no-ff", "-m", "Merge side branch", fmt.Sprintf("side%d", i))
 		} else {
@@ -434,6 +450,9 @@ func one(raw json.RawMessage) interface{} {
 			return rec
 		}
 	}
+	if c.Mode != "synth" && c.Tables {
+		rec.Observed.Cli = cliTables(os.Getenv("VERIF_COCA"), filepath.Join(scratch, "repo"), filepath.Join(scratch, "tmp"))
+	}
 	for _, m := range msgs {
 		co := CommitObs{Rev: m.Rev, Author: m.Author, Date: m.Date, Msg: m.Message, Changes: []ChangeFact{}}
 		for _, ch := range m.Changes {
@@ -450,6 +469,66 @@ func one(raw json.RawMessage) interface{} {
 		rec.Observed.Note = msg
 	}
 	return rec
+}
+
+// cliTables runs the three table commands in the repository and reads the printed rows
+func cliTables(coca, dir, tmp string) CliTables {
+	t := CliTables{Ran: true, Ok: true, Team: []TeamObs{}, Age: []string{}, Top: []TopObs{}}
+	rows := func(flag string, ncol int) [][]string {
+		cmd := exec.Command(coca, "git", flag)
+		cmd.Dir = dir
+		cmd.Env = append(os.Environ(), "TMPDIR="+tmp, "HOME="+dir, "GIT_CONFIG_NOSYSTEM=1", "LC_ALL=C.UTF-8")
+		var so bytes.Buffer
+		cmd.Stdout = &so
+		if err := cmd.Run(); err != nil {
+			t.Ok = false
+			return nil
+		}
+		var out [][]string
+		seenHeader := false
+		for _, ln := range strings.Split(so.String(), "\n") {
+			if !strings.HasPrefix(ln, "|") {
+				continue
+			}
+			if strings.HasPrefix(ln, "|--") {
+				continue
+			}
+			cells := strings.Split(strings.Trim(ln, "|"), "|")
+			for i := range cells {
+				cells[i] = strings.TrimSpace(cells[i])
+			}
+			if !seenHeader {
+				seenHeader = true
+				continue
+			}
+			if len(cells) != ncol {
+				t.Ok = false
+				continue
+			}
+			out = append(out, cells)
+		}
+		if !seenHeader {
+			t.Ok = false
+		}
+		return out
+	}
+	atoi := func(s string) int {
+		n, err := strconv.Atoi(s)
+		if err != nil {
+			t.Ok = false
+		}
+		return n
+	}
+	for _, r := range rows("-t", 3) {
+		t.Team = append(t.Team, TeamObs{Name: r[0], Revs: atoi(r[1]), Authors: atoi(r[2])})
+	}
+	for _, r := range rows("-a", 2) {
+		t.Age = append(t.Age, r[0])
+	}
+	for _, r := range rows("-o", 3) {
+		t.Top = append(t.Top, TopObs{Name: r[0], Commits: atoi(r[1]), Lines: atoi(r[2])})
+	}
+	return t
 }
 
 func tailStr(s string, n int) string {
